@@ -160,7 +160,20 @@ fn make_tail(r: &mut crate::rng::Rng, ct: u8) -> (Vec<u8>, Tail) {
         }
         0x15 => (vec![r.u8()], Tail::AlertLone),
         _ => match r.below(6) {
-            4 | 5 => {
+            4 => {
+                // a Certificate in the TLS 1.3 layout (non-empty request context): in this crate's layout a chain cut short
+                let body = gen::tls13_certificate_body(r);
+                let legacy_len = u32::from_be_bytes([0, body[0], body[1], body[2]]) as usize;
+                if legacy_len <= body.len() - 3 {
+                    (vec![20, 0, 0], Tail::HsHeaderCut)
+                } else {
+                    let mut w = refenc::W::new();
+                    w.u8(11);
+                    w.vec24("handshake_length", &body);
+                    (w.b, Tail::HsUnknownType)
+                }
+            }
+            5 => {
                 // known type, framing complete, body cut where no valid encoding ends (length rewritten)
                 match gen::consistent_cut(r) {
                     Some((b, _, _)) => (b, Tail::HsUnknownType),
